@@ -217,6 +217,53 @@ def given_text_scenario():
         shutil.rmtree(tmp, ignore_errors=True)
 
 
+def rewritten_file_scenario():
+    """concrete supplement: a file is loaded, rewritten (same length, line ends elsewhere) and loaded again in
+    the same process, with the same and with a fresh meta-model: errors point into the current content"""
+    import shutil
+    from textx import metamodel_from_str
+    import textx.scoping.providers as P
+    from textx.exceptions import TextXError
+    tmp = tempfile.mkdtemp(prefix='c28w_')
+    problems = []
+    try:
+        def at(text, needle):
+            i = text.index(needle)
+            return (text.count('\n', 0, i) + 1, i - (text.rfind('\n', 0, i) + 1) + 1)
+        raw = [('obj a\nobj b\nuser u ref a ;\n', None),
+               ('obj a obj b\n\nuser u ref q ;', 'q ;'),           # unknown object
+               ('obj a\n\n\nobj b user ref a ;', 'a ;'),           # syntax error ('ref' is taken as the name)
+               ('\n\n\nobj a obj b user u ref z;', 'z;')]
+        width = max(len(t) for t, _ in raw)
+        versions = [(t.ljust(width), None if n is None else at(t, n)) for t, n in raw]   # all of the same length
+        for via_import in (False, True):
+            mm = metamodel_from_str(GRAMMAR)
+            mm.register_scope_providers({'*.*': P.PlainNameImportURI()})
+            fn = os.path.join(tmp, 'lib.m' if via_import else 'main.m')
+            if via_import:
+                with open(os.path.join(tmp, 'main.m'), 'w') as f:
+                    f.write('import "lib.m"\nobj m')
+            for text, want in versions:
+                with open(fn, 'w') as f:
+                    f.write(text)
+                for label, m_ in (('the same meta-model', mm), ('a fresh meta-model', None)):
+                    if m_ is None:
+                        m_ = metamodel_from_str(GRAMMAR)
+                        m_.register_scope_providers({'*.*': P.PlainNameImportURI()})
+                    try:
+                        m_.model_from_file(os.path.join(tmp, 'main.m'))
+                        got = None
+                    except TextXError as e:
+                        got = (e.line, e.col) if os.path.basename(e.filename or '') == os.path.basename(fn) else (
+                            'file', e.filename)
+                    if got != want:
+                        problems.append('%s rewritten as %r and loaded again with %s: error at %s, expected %s'
+                                        % (os.path.basename(fn), text, label, got, want))
+        return problems
+    finally:
+        shutil.rmtree(tmp, ignore_errors=True)
+
+
 def explore(item):
     kind, = item
     ctx = Ctx(10000, max_paths=5000, free_selectors=True)
@@ -291,6 +338,10 @@ def main():
         chk.sample({'kind': r['kind'], 'loads': r['paths'], 'located_correctly': r['ok'], 'mislocated': len(r['bad'])})
     for pr in given_text_scenario()[:2]:
         chk.violation(pr, {'given_text': True})
+    for pr in rewritten_file_scenario()[:2]:
+        chk.violation(pr, {'rewritten_file': True})
+    paths += 16
+    chk.cov['bounds']['rewritten_file'] = 'a file rewritten with the same length and loaded again, main and imported (concrete)'
     paths += 3
     chk.cov['bounds']['given_text'] = 'model_from_str(text, file_name=F) with other content on disk, incl. the empty text (concrete)'
     chk.cov['paths_explored'] = paths
@@ -301,6 +352,9 @@ def main():
 
 
 def replay(data):
+    if data.get('rewritten_file'):
+        pr = rewritten_file_scenario()
+        return bool(pr), pr[:2]
     if data.get('given_text'):
         pr = given_text_scenario()
         return bool(pr), pr[:2]
